@@ -1,4 +1,5 @@
 import SafeC.Proofs.Footprint
+import SafeC.Proofs.InterleaveEv
 import SafeC.Props.C12
 /-!
 # C12, second part — N threads, shared read-only data, sequential orders, locality of `exec`
@@ -21,6 +22,7 @@ Statements.
                            (nothing is carried from one call to the next);
 * `interleaving_is_sequential` — all finished: every interleaving = every sequential order, whole memory;
 * `reentrant_shared_reads`, `either_order` — the two-thread forms on `runSched`;
+* `events_invariant`, `events_are_a_shuffle`, `quiet_calls_stay_quiet` — the handler events of an interleaving;
 * `exec_local_ok`, `exec_local_err`, `exec_frame_outside` — `exec p st` depends only on `st` restricted
   to the footprint and changes nothing outside it: the checkable form of "no mutable state".
 -/
@@ -117,6 +119,45 @@ theorem exec_frame_outside {α : Type} {R W : Nat → Prop} (p : Prog α) (s : S
   intro a ha
   rw [← (exec_eq_runT_aux p s s rfl h).2]
   exact runT_frame2 p s hw a ha
+
+/-! ## handler events -/
+
+/-- **events of an interleaving**: at every point of every schedule the log is the initial log followed by a
+shuffle `L` of what the threads have emitted so far — heads taken from the threads' run-alone event lists
+(`Thread.evs`, from the initial memory), leaving exactly the events the remaining programs emit run alone from
+the current memory -/
+theorem events_invariant {R W : ι → Nat → Prop} (hni : NonInterf R W) (sch : List ι) (ps : ι → Thread) (s : St)
+    (hw : ∀ i, (ps i).Fp (R i) (W i) s) :
+    ∃ L, (runPool sch ps s).2.events = s.events ++ L ∧
+      Sh (fun i => (ps i).evs s) L (fun i => ((runPool sch ps s).1 i).evs (runPool sch ps s).2) :=
+  pool_events hni sch ps s hw
+
+/-- all threads finished: the log is the initial log followed by a COMPLETE shuffle of the threads' run-alone
+event lists — every constraint-handler event of every call appears, with the kind and code of the call run
+alone, in the call's own order; only the relative order across threads depends on the schedule -/
+theorem events_are_a_shuffle {R W : ι → Nat → Prop} (hni : NonInterf R W) (sch : List ι) (ps : ι → Thread) (s : St)
+    (hw : ∀ i, (ps i).Fp (R i) (W i) s) (hfin : ∀ i, ((runPool sch ps s).1 i).isDone = true) :
+    ∃ L, (runPool sch ps s).2.events = s.events ++ L ∧ Sh (fun i => (ps i).evs s) L (fun _ => []) :=
+  pool_events_finished hni sch ps s hw hfin
+
+/-- calls that report nothing when run alone report nothing under any schedule -/
+theorem quiet_calls_stay_quiet {R W : ι → Nat → Prop} (hni : NonInterf R W) (sch : List ι) (ps : ι → Thread) (s : St)
+    (hw : ∀ i, (ps i).Fp (R i) (W i) s) (hq : ∀ i, (ps i).evs s = []) :
+    (runPool sch ps s).2.events = s.events := by
+  obtain ⟨L, h1, h2⟩ := pool_events hni sch ps s hw
+  cases h2 with
+  | done _ => simpa using h1
+  | step i e rest hi _ _ =>
+    have hi' : (ps i).evs s = e :: rest := hi
+    rw [hq i] at hi'; cases hi'
+
+/-- non-vacuity: a failing call's own event list, and a two-thread shuffle of two such lists -/
+example (s : St) : Thread.evs ⟨Nat, failS 5⟩ s = [.handler .str 5] := rfl
+
+example : Sh (fun b : Bool => if b then [Event.handler .str 5] else [Event.handler .mem 7])
+    [Event.handler .mem 7, Event.handler .str 5] (fun _ => []) :=
+  .step false _ [] rfl (f' := fun b => if b then [Event.handler .str 5] else []) (fun j => by cases j <;> rfl)
+    (.step true _ [] rfl (f' := fun _ => []) (fun j => by cases j <;> rfl) (.done fun _ => rfl))
 
 /-! ## non-vacuity: three threads, private scratch cells, one SHARED read-only cell -/
 
